@@ -2,6 +2,8 @@ package eng
 
 import (
 	"fmt"
+	"go/token"
+	"go/types"
 	"strings"
 
 	"golang.org/x/tools/go/ssa"
@@ -33,6 +35,61 @@ func ruleNoParamWrites(c *Check, w *World, tb *TB, ef *Effects, rule string, api
 		if bad == 0 {
 			c.OK(rule, FuncName(f), "no-argument-write", "no store, copy, append-into or writing callee (directly or through module callees) is rooted at a parameter", w.Pos(f.Pos()))
 		}
+	}
+}
+
+// ruleNoCapReads: a slice parameter (or a slice field of a struct parameter) is never re-sliced beyond its length.
+// Go allows s[:n] up to cap(s); the bytes between len and cap are not part of the argument — they belong to
+// whatever else shares the caller's buffer, e.g. another call's data. Every re-slice of parameter-rooted slice
+// memory with a high bound must be under a guard len(s) >= high (or high = len(s) - k).
+func ruleNoCapReads(c *Check, w *World, tb *TB, rule string, fns []*ssa.Function) {
+	n := 0
+	for _, f := range fns {
+		if f.Blocks == nil {
+			continue
+		}
+		EachInstr(f, func(in ssa.Instruction) {
+			sl, ok := in.(*ssa.Slice)
+			if !ok || sl.High == nil {
+				return
+			}
+			if _, isSlice := sl.X.Type().Underlying().(*types.Slice); !isSlice {
+				return
+			}
+			xt := tb.Of(sl.X)
+			rooted := false
+			for _, r := range tb.RootTerms(xt, 0) {
+				if r.Op == "param" {
+					rooted = true
+				}
+			}
+			if !rooted {
+				return
+			}
+			n++
+			lenT := "len(" + xt.String() + ")"
+			ht := tb.Of(sl.High)
+			ok2 := false
+			if ht.Op == "bin" && ht.Sym == "-" && ht.Args[0].String() == lenT {
+				ok2 = true
+			}
+			if ht.String() == lenT {
+				ok2 = true
+			}
+			for _, at := range atomsOf(CondsAt(sl.Block())) {
+				l, r := tb.Of(at.X).String(), tb.Of(at.Y).String()
+				if l == lenT && r == ht.String() && (at.Op == token.GEQ || at.Op == token.GTR || at.Op == token.EQL) {
+					ok2 = true
+				}
+				if r == lenT && l == ht.String() && (at.Op == token.LEQ || at.Op == token.LSS || at.Op == token.EQL) {
+					ok2 = true
+				}
+			}
+			c.Decide(ok2, rule, FuncName(f), "reslice:"+clip(normT(xt), 60)+"[:"+clip(normT(ht), 40)+"]", "an argument slice is re-sliced only within its length (guard len >= high)", "an argument slice is re-sliced up to "+clip(normT(ht), 80)+" without a guard on its length: bytes between len and cap — not part of the argument, possibly another call's data — become part of the result", w.InstrPos(in))
+		})
+	}
+	if n == 0 {
+		c.OK(rule, "otp", "reslice", "no argument slice is re-sliced with a high bound", "")
 	}
 }
 
@@ -81,6 +138,7 @@ func init() {
 			ruleNoParamWrites(c, w, tb, ef, "R12.1", api)
 			ruleNoPkgState(c, w, tb, ef, "R12.2", w.ModuleFuncs(OtpPath))
 			ruleNoAliasingResult(c, w, tb, "R12.3", api)
+			ruleNoCapReads(c, w, tb, "R12.4", w.ModuleFuncs(OtpPath))
 			// the service layer must not write the exported defaults or the registry either (a pointer copied from them)
 			ruleRESTStateless(c, w, tb, ef, "R12.REST", false)
 			runControl(c, "R12.1", []string{"ControlWritesParam|param:p:store", "ControlAppendsParam|param:p:append"}, func(sink *Check, cw *World) {
